@@ -43,6 +43,15 @@ SCRIPTS = [
     {'name': 'pools', 'code': PRE + 'from pedal.core.commands import set_pools\nset_pools(["A"])\nexplain.override_for_pool("A", title="Pool A title")\n'
      'explain("pool message", label="p1")\n'},
     {'name': 'pools-b', 'code': PRE + 'from pedal.core.commands import set_pools\nset_pools(["A"])\ngently("second pool user", label="p2")\n'},
+    {'name': 'pools-subclass', 'code': PRE + 'from pedal.core.commands import set_pools\nset_pools(["A"])\n'
+     'set_correct.override_for_pool("A", title="Pool A correct")\ncompliment.override_for_pool(["A"], title="Pool A compliment")\n'
+     'gently.override_for_pool("A", title="Pool A gently")\ncompliment("fine", label="c8")\nset_correct()\n'},
+    {'name': 'pools-c', 'code': PRE + 'from pedal.core.commands import set_pools\nset_pools(["A"])\ncompliment("fine", label="c9")\nset_correct()\n'},
+    {'name': 'pools-d', 'code': PRE + 'from pedal.core.commands import set_pools\nset_pools(["A"])\ngently("try again", label="g9")\n'},
+    # the documented way to configure TIFA: write into the tool's settings
+    {'name': 'tifa-settings', 'code': PRE + 'MAIN_REPORT["tifa"]["settings"]["truthiness_returns_booleans"] = False\n'
+     'MAIN_REPORT["tifa"]["settings"]["evaluate_string_literal_types"] = True\nMAIN_REPORT["tifa"]["settings"]["allow_unused_variables"] = True\n'
+     'from pedal.tifa import tifa_analysis\ntifa_analysis()\ngently("configured", label="cfg", priority="low")\n'},
     {'name': 'explain-plain', 'code': PRE + 'explain("plain explanation", label="e1")\n'},
     {'name': 'mocks', 'code': PRE + 'block_function("sum")\nmock_function("max", lambda *a: 99)\nallow_module("os")\nstudent = run()\n'
      'assert_equal(evaluate("max(1, 2)"), 99)\n'},
@@ -81,8 +90,23 @@ SUBMISSIONS = [
     {'name': 'sections', 'files': {'answer.py': 'x = 1\n##### Part 1\ndef add(a, b):\n    return a + b\nprint(y)\n##### Part 2\nz = = 3\n'}},
     {'name': 'annotated', 'files': {'answer.py': 'ages: list[int] = []\nnames = list()\nnames.append("Ada")\ndef add(a, b):\n    return a + b\n'}},
     {'name': 'bare-list', 'files': {'answer.py': 'names = list()\nnames.append("Ada")\nnames.append("Bob")\ndef add(a, b):\n    return a + b\n'}},
+    {'name': 'bare-typed', 'files': {'answer.py': 'def add(a, b):\n    return a + b\ndef shout(words: list) -> list:\n    result = list()\n'
+                                                   '    for w in words:\n        result = result + [w.upper()]\n    return result\n'
+                                                   'print(shout(["a", "b"]))\nd = dict()\nd["k"] = "v"\nprint(d["k"] + "!")\n'}},
+    {'name': 'annotated-2', 'files': {'answer.py': 'def add(a, b):\n    return a + b\ndef total(xs: list[int]) -> int:\n    t = 0\n    for x in xs:\n'
+                                                    '        t = t + x\n    return t\ncounts: dict[str, int] = {}\ncounts["a"] = total([1, 2])\n'
+                                                    'nums = list[int]()\nprint(counts, nums)\n'}},
+    {'name': 'boolop', 'files': {'answer.py': 'name = input("name?") or "stranger"\nprint("Hello " + name)\ndef add(a, b):\n    return a + b\n'}},
+    {'name': 'string-annotation', 'files': {'answer.py': 'def add(a: "int", b: "int") -> "int":\n    return a + b\nprint(add("x", "y"))\n'}},
     {'name': 'unused', 'files': {'answer.py': 'def add(a, b):\n    return a + b\nleftover = 5\nfor i in [1, 2]:\n    print(i + 5)\nprint(1)\n'}},
 ]
+ALWAYS = [(('pools-subclass', 'add-ok'), ('pools-c', 'add-ok')), (('pools-subclass', 'add-ok'), ('pools-d', 'add-ok')),
+          (('pools', 'add-ok'), ('pools-c', 'add-ok')), (('pools-subclass', 'add-wrong'), ('pools-b', 'add-ok')),
+          (('tifa-settings', 'boolop'), ('plain', 'boolop')), (('tifa-settings', 'add-ok'), ('static+tifa', 'boolop')),
+          (('tifa-settings', 'string-annotation'), ('plain', 'string-annotation')), (('tifa-settings', 'unused'), ('plain', 'unused')),
+          (('tifa-settings', 'boolop'), ('tifa-settings', 'boolop')),
+          (('plain', 'annotated'), ('plain', 'bare-typed')), (('plain', 'annotated-2'), ('plain', 'bare-typed')),
+          (('static+tifa', 'annotated-2'), ('static+tifa', 'bare-list')), (('crash', 'annotated-2'), ('plain', 'bare-typed'))]
 FIELDS = ('label', 'title', 'message', 'correct', 'score', 'output', 'error')
 
 
@@ -115,6 +139,10 @@ def correspondence(ctx):
             for sc in (0, 4, 11):
                 hists.append([[sc, a], [sc, b]])
                 hists.append([[sc, b], [sc, a], [sc, b]])
+    # shapes that are always run: (script, submission) then (script, submission), by name
+    snames = [x['name'] for x in SCRIPTS]
+    for (sa, ba), (sb, bb) in ALWAYS:
+        hists.append([[snames.index(sa), names.index(ba)], [snames.index(sb), names.index(bb)]])
     for _ in range(n_hist):
         h = [[rng.randrange(ns), rng.randrange(nb)] for _ in range(rng.randrange(2, 7))]
         if rng.random() < 0.3:
